@@ -941,6 +941,10 @@ print("CONFIRMED" if np.abs(ref - hit.state).max() > 1e-6 else "NOT-CONFIRMED")
 
 def run(chk):
     loader.install()
+    # 'the same for fixed-step, adaptive and symplectic integrators': direction / time stamps of the symplectic event path (shared with C10)
+    from contracts import C10 as _c10
+    chk.under_contract("hiten.algorithms.integrators.symplectic:_ExtendedSymplectic.integrate")
+    _c10._sympl_event_times(chk)
     chk.under_contract(UT + ":_event_crossed", UT + ":_crossed_direction", UT + ":_bisection_update", UT + ":_bracket_converged",
                        RK + ":_hermite_refine_in_step", RK + ":_rk45_refine_in_step", RK + ":_dop853_refine_in_step",
                        SY + ":_hermite_refine_event_symplectic", RK + ":_FixedStepRK._integrate_fixed_rk_until_event",
